@@ -300,6 +300,19 @@ def refit_monitor(rep, rng, data, n, m, grid):
                 used.fit(data, method_smoothing=None)
                 back = UFPCA(n_components=s, method=method); back.fit(data, method_smoothing=None)
                 back.fit(other, method_smoothing=None)
+                from harness import fd as _fd
+                gx = np.asarray(data.argvals["input_dim_0"], float)
+                twin = _fd.dense(gx, np.asarray(data.values, float)[::-1] * 0.5 + 3.0 + np.cos(gx)[None, :])
+                same = UFPCA(n_components=s, method=method); same.fit(twin, method_smoothing=None)
+                same.fit(data, method_smoothing=None)
+            e0, e3 = np.asarray(fresh.eigenvalues, float), np.asarray(same.eigenvalues, float)
+            if e0.shape != e3.shape or not np.array_equal(e0, e3, equal_nan=True):
+                rep.violation(f"UFPCA({method}, n_components={s}) fitted on this dataset after other curves on the SAME grid: eigenvalues "
+                              f"{[float(v) for v in e3[:4]]}..., a fresh estimator gives {[float(v) for v in e0[:4]]}...",
+                              {"level": "api", "estimator": "UFPCA", "method": method, "sel": s, "grid": grid,
+                               "data_values": C.hexf(np.asarray(data.values))})
+            with warnings.catch_warnings():
+                warnings.simplefilter("ignore")
                 fresh_o = UFPCA(n_components=s, method=method); fresh_o.fit(other, method_smoothing=None)
             rep.dist["refit/selection"] = rep.dist.get("refit/selection", 0) + 1
             for lab, a_, b_ in (("this dataset after another one", fresh, used), ("a bigger dataset after this one", fresh_o, back)):
